@@ -66,6 +66,9 @@ func builtinNumberToExponential(call FunctionCall) Value {
 	if call.This.IsNaN() {
 		return stringValue("NaN")
 	}
+	if value := call.This.float64(); math.IsInf(value, 0) {
+		return stringValue(floatToString(value, 64))
+	}
 	precision := float64(-1)
 	if value := call.Argument(0); value.IsDefined() {
 		precision = toIntegerFloat(value)
@@ -83,6 +86,9 @@ func builtinNumberToPrecision(call FunctionCall) Value {
 	value := call.Argument(0)
 	if value.IsUndefined() {
 		return stringValue(call.This.string())
+	}
+	if value := call.This.float64(); math.IsInf(value, 0) {
+		return stringValue(floatToString(value, 64))
 	}
 	precision := toIntegerFloat(value)
 	if 1 > precision {
